@@ -45,6 +45,7 @@ void w_PL_removeValue(void* l, void* elem) { ((PL*)l)->remove(*(const Tp*)elem);
 void* w_PL_removeFront(void* l) { return ((PL*)l)->removeFront().item; } // passes the list's own _begin iterator
 void* w_PL_removeBack(void* l) { return ((PL*)l)->removeBack().item; }
 void w_PL_swap(void* a, void* b) { ((PL*)a)->swap(*(PL*)b); }
+void w_PL_clear(void* l) { ((PL*)l)->clear(); }
 
 // ---------------------------------------------------------------- ghost snapshot of the neighbourhood
 PL* g_L; Item* g_Q; Item* g_F; Item* g_F2; Item* g_I; Item* g_N; Item* g_F0;
@@ -194,6 +195,42 @@ void h_swap()
   NV_POST("PoolList::swap: chains and pools handed over, sentinels re-anchored, no element touched", pl_swap_post());
   if(aEmpty && !bEmpty) { NV_REACH("swap.empty_with_full"); }
   if(!aEmpty && !bEmpty && !aSingle) { NV_REACH("swap.full_with_full"); }
+}
+
+// -------------------------------------------------------------- bounded: clear() on a list of <= 2 elements
+// every element destroyed exactly once where it lives, nodes pushed on the free list in order,
+// list empty, blocks kept, nothing else written
+Item* g_i1; Item* g_i2; void* gv_i1; void* gv_i2;
+bool pl_clear_post()
+{
+  PL* l = g_L;
+  usize n = g_i2 ? 2 : g_i1 ? 1 : 0;
+  if(g_ctor != 0 || g_dtor != (int)n) return false;
+  if(n && g_last_dtor != (const void*)ELEM(n == 2 ? g_i2 : g_i1)) return false;
+  if(l->_size != 0 || l->_begin.item != &l->endItem || l->endItem.prev != 0 || l->_end.item != &l->endItem || (void*)l->blocks != g_blocks0) return false;
+  if(!g_i1) return l->freeItem == g_F0;
+  if(g_i1->prev != g_F0) return false;
+  if(!g_i2) return l->freeItem == g_i1;
+  return g_i2->prev == g_i1 && l->freeItem == g_i2;
+}
+void h_b_clear()
+{
+  NV_INPUT(usize, n); NV_INPUT(bool, hasFree); NV_INPUT(usize, size0);
+  NV_ASSUME(n <= 2);
+  PL* l = raw_list();
+  Item* F0 = hasFree ? raw_item() : (Item*)0;
+  Item* i1 = n >= 1 ? raw_item() : (Item*)0;
+  Item* i2 = n >= 2 ? raw_item() : (Item*)0;
+  l->endItem.prev = 0; l->_begin.item = &l->endItem;
+  if(i1) { i1->prev = 0; i1->next = &l->endItem; l->endItem.prev = i1; l->_begin.item = i1; }
+  if(i2) { i2->prev = i1; i1->next = i2; i2->next = &l->endItem; l->endItem.prev = i2; }
+  l->freeItem = F0; l->_size = size0; l->blocks = 0;
+  g_L = l; g_i1 = i1; g_i2 = i2; g_F0 = F0; g_blocks0 = l->blocks; gv_i1 = i1; gv_i2 = i2;
+  g_ctor = 0; g_dtor = 0; g_last_dtor = 0;
+  w_PL_clear(l);
+  NV_POST("PoolList::clear: each element destroyed once in place, nodes recycled in order, list empty", pl_clear_post());
+  if(n == 2) { NV_REACH("b_clear.two"); }
+  if(n == 0) { NV_REACH("b_clear.empty"); }
 }
 
 } // extern "C"
